@@ -1,6 +1,8 @@
 """C09 -- every file parser is total: arbitrary bytes are rejected cleanly or loaded whole."""
 import json
 
+import os
+
 import vlib
 from families import loadfuzz
 
@@ -17,6 +19,11 @@ def body(c):
     issues, stats = loadfuzz.run(c, exe, c.tier, c.seed)
     for it in issues:
         c.issue(it)
+        if c.prop not in it.props and os.environ.get("VERIF_SHOW_ALL"):
+            # diagnostic only: issues this run observed that bear on other
+            # properties (their own checks report them)
+            print("NOTE other-property issue %s: %s" % (sorted(it.props),
+                                                        it.signature))
     c.add_part("loadfuzz_traces", stats)
     c.cov["traces_validated_against_impl"] = stats["episodes"]
     c.cov["evaluations"] = stats["episodes"]
